@@ -18,7 +18,13 @@ def step(sid, tail, off, cur, level, here, there, ha, ho, sfa, sfo, t12, t22, in
         sw = R.Sw(off)
         exp = R.expected(model, cur, req, sw)
         with Patched(draws):
-            reply = handle(srv, req)  # any exception here is a violation ("disabling a behaviour only removes that rule")
+            try:
+                reply = handle(srv, req)  # any exception here is a violation ("disabling a behaviour only removes that rule")
+            except (Vacuous, PoolExhausted):
+                raise
+            except Exception as e:  # noqa: BLE001
+                name = type(e).__name__
+                check(False, "virtual ECU raised " + name)
     except Vacuous:
         return True
     kind, val = exp
